@@ -214,6 +214,9 @@ class ModelsOps:
             return BoolV(self.is_(l, r, node))
         if op is ast.IsNot:
             return BoolV(not self.is_(l, r, node))
+        if op in (ast.Eq, ast.NotEq) and isinstance(l, DateV) and isinstance(r, DateV):
+            eq = self.keys_equal(l, r, node)
+            return BoolV(eq if op is ast.Eq else not eq)
         if op in (ast.In, ast.NotIn):
             if isinstance(r, TupleV) or (isinstance(r, ListV) and r.items is not None):
                 hit = any(self.keys_equal(x, l, node) for x in r.items)
@@ -451,6 +454,18 @@ class ModelsOps:
         return self.st.norm(out)
 
     def num_binop(self, op, l: Num, r: Num, node) -> Num:
+        if op in (ast.BitOr, ast.BitAnd, ast.BitXor, ast.LShift, ast.RShift):
+            a, b = self.st.norm(l.rf), self.st.norm(r.rf)
+            if a.is_const() and b.is_const() and a.const_value().denominator == 1 and b.const_value().denominator == 1 \
+                    and l.kind in ("int", "bool") and r.kind in ("int", "bool"):
+                x, y = int(a.const_value()), int(b.const_value())
+                try:
+                    v = {ast.BitOr: lambda: x | y, ast.BitAnd: lambda: x & y, ast.BitXor: lambda: x ^ y,
+                         ast.LShift: lambda: x << y, ast.RShift: lambda: x >> y}[op]()
+                except (ValueError, OverflowError):
+                    self.I.raise_("ValueError", node)
+                return Num(RF.const(v), "int")
+            self.I.unsupported(node, "bit operation on symbolic integers")
         self.check_float_mix(l, r, node)
         kinds = {l.kind, r.kind}
         try:
@@ -522,6 +537,168 @@ class ModelsOps:
         return Num(rf, kind)
 
     # =============================================================== text templates (enabled per scenario)
+    # =============================================================== regular expressions as readers
+    def regex_compile(self, args, kwargs, node):
+        pat = args[0] if args else kwargs.get("pattern")
+        fl = args[1] if len(args) > 1 else kwargs.get("flags")
+        if not (isinstance(pat, StrV) and pat.const is not None):
+            self.I.unsupported(node, "pattern that is not a constant text")
+        flags = 0
+        if fl is not None:
+            if not (isinstance(fl, Num) and self.st.norm(fl.rf).is_const()):
+                self.I.unsupported(node, "pattern flags that are not constant")
+            flags = int(self.st.norm(fl.rf).const_value())
+        return RegexV(pat.const, flags)
+
+    def regex_apply(self, rx: RegexV, how, text, node):
+        import re as _re
+        from .regexmodel import RegexUnsupported, reader_profile
+        I = self.I
+        if not isinstance(text, StrV):
+            self.flag("bad-amount", node, "pattern applied to a non-text")
+            I.raise_("TypeError", node)
+        try:
+            prof = reader_profile(rx.pattern, rx.flags, how)
+        except RegexUnsupported as e:
+            I.unsupported(node, f"pattern outside the reader model: {e}")
+        if text.const is not None:
+            m = getattr(_re.compile(rx.pattern, rx.flags), how)(text.const)
+            if m is None:
+                return NONE
+            return MatchV(rx, text, prof, concrete=m)
+        # an opaque text: recorded like a split, judged by what the pattern does to the writer's text forms
+        self.st.effects.append(("strsplit", text, "regex", [StrV(rx.pattern), self.num_const(rx.flags), StrV(how)],
+                                self.where(node), prof))
+        if prof["always_fail"]:
+            return NONE
+        if prof["can_fail"]:
+            c = I.choose(2, f"match@{getattr(node, 'lineno', '?')}", ["no match", "match"])
+            if c == 0:
+                return NONE
+        return MatchV(rx, text, prof)
+
+    def match_group(self, m: MatchV, key, node):
+        I = self.I
+        prof = m.profile
+        if isinstance(key, StrV) and key.const is not None:
+            if key.const not in prof["names"]:
+                I.raise_("IndexError", node)
+            idx = prof["names"][key.const]
+        elif isinstance(key, Num) and self.st.norm(key.rf).is_const():
+            idx = int(self.st.norm(key.rf).const_value())
+        else:
+            I.unsupported(node, "match group selected by a computed key")
+        if idx < 0 or idx > prof["groups"]:
+            I.raise_("IndexError", node)
+        if m.concrete is not None:
+            v = m.concrete.group(idx)
+            return NONE if v is None else StrV(v)
+        if idx in m.pieces:
+            return m.pieces[idx]
+        if idx == 0:
+            v = m.text
+        elif idx == prof["amount_group"]:
+            v = StrV(None, "part0")
+        elif idx == prof["symbol_group"]:
+            # present when the text goes on after the amount
+            c = I.choose(2, f"group@{getattr(node, 'lineno', '?')}", ["absent", "present"])
+            if c == 1:
+                v = StrV(None, "part1")
+            else:
+                v = NONE if prof.get("symbol_absent_is_none") else StrV("")
+        else:
+            I.unsupported(node, f"group {idx} of the pattern is neither the amount nor the symbol of the text form")
+        m.pieces[idx] = v
+        return v
+
+    def fresh_date(self, tag):
+        t = self.st.fresh(tag)
+        return DateV(t, *(Num(RF.atom(("k", f"{t}.{f}")), "int") for f in ("year", "month", "day")))
+
+    def text_fields(self, v, sep):
+        """The `sep`-separated fields of a text template, as numbers (a run of digits denotes its value, a rendered
+        integer itself, the i-th field of an opaque text of known field count a symbol of its own); None when the
+        template does not determine them."""
+        chunks = [[]]
+
+        def walk(t):
+            for p in self.text_parts(t):
+                if p[0] == "lit":
+                    bits = p[1].split(sep)
+                    for i, b in enumerate(bits):
+                        if i:
+                            chunks.append([])
+                        if b:
+                            chunks[-1].append(b)
+                    continue
+                x = p[1]
+                if isinstance(x, Num):
+                    chunks[-1].append(x)
+                elif isinstance(x, StrV) and getattr(x, "parts", None) is not None:
+                    walk(x)
+                elif isinstance(x, StrV) and getattr(x, "n_fields", None) is not None and x.n_fields[0] == sep:
+                    for i in range(x.n_fields[1]):
+                        if i:
+                            chunks.append([])
+                        chunks[-1].append(Num(RF.atom(("k", f"{x.tag}.f{i}")), "int"))
+                else:
+                    chunks[-1].append(None)
+        walk(v)
+        out = []
+        for c in chunks:
+            if len(c) != 1 or c[0] is None:
+                return None
+            if isinstance(c[0], str):
+                if not c[0].isdigit():
+                    return None
+                out.append(self.num_const(int(c[0]), "int"))
+            else:
+                out.append(c[0])
+        return out
+
+    def split_template(self, v, sep):
+        """str.split(sep) of a text all of whose rendered values are plain digit runs (a premise the scenario that
+        built the text states by marking it)."""
+        if not getattr(v, "digits_only", False):
+            return None
+        fields = [[]]
+        for p in self.text_parts(v):
+            if p[0] == "lit":
+                bits = p[1].split(sep)
+                for i, b in enumerate(bits):
+                    if i:
+                        fields.append([])
+                    if b:
+                        fields[-1].append(("lit", b))
+            else:
+                fields[-1].append(p)
+        out = []
+        for f in fields:
+            t = self.mk_text(f) if f else StrV("")
+            if isinstance(t, StrV) and t.const is None:
+                t.digits_only = True
+            out.append(t)
+        return out
+
+    def date_from_text(self, text, node):
+        I = self.I
+        if isinstance(text, StrV) and text.const is not None:
+            import datetime
+            try:
+                d = datetime.date.fromisoformat(text.const)
+            except ValueError:
+                I.raise_("ValueError", node)
+            return DateV("date", *(self.num_const(x, "int") for x in (d.year, d.month, d.day)))
+        fields = self.text_fields(text, "-") if isinstance(text, StrV) and getattr(self, "text_templates", False) else None
+        if fields is not None and len(fields) != 3:
+            I.raise_("ValueError", node)        # not of the form YYYY-MM-DD
+        c = I.choose(2, "fromisoformat", ["ValueError", "ok"])
+        if c == 0:
+            I.raise_("ValueError", node)
+        if fields is None:
+            return self.fresh_date("date")
+        return DateV("date", *fields)
+
     def text_parts(self, v):
         """Template parts of a text value: ("lit", str) / ("val", value[, spec])."""
         if isinstance(v, StrV):
@@ -861,9 +1038,10 @@ class ModelsOps:
             c = I.choose(2, "date()", ["ValueError", "ok"])
             if c == 0:
                 I.raise_("ValueError", node)
-            o = OpaqueV("date")
-            o.kinds = {"date"}
-            return o
+            vals = list(args) + [kwargs[k_] for k_ in ("year", "month", "day") if k_ in kwargs]
+            if len(vals) == 3 and all(isinstance(x, Num) for x in vals):
+                return DateV("date", *vals)
+            return self.fresh_date("date")
         if name == "dict":
             d = DictV()
             if args:
@@ -1267,7 +1445,13 @@ class ModelsOps:
         if name.startswith("math."):
             self.flag("math-call", node, name)
             v = args[0]
-            return Num(self.ufn(name, v.rf) if isinstance(v, Num) else RF.atom(("sym", self.st.fresh("m"))), "float")
+            kind = "int" if name in ("math.floor", "math.ceil", "math.trunc") else "float"
+            return Num(self.ufn(name, v.rf) if isinstance(v, Num) else RF.atom(("sym", self.st.fresh("m"))), kind)
+        if name == "re.compile":
+            return self.regex_compile(args, kwargs, node)
+        if name in ("re.fullmatch", "re.match", "re.search") and len(args) >= 2:
+            rx = self.regex_compile([args[0]] + list(args[2:3]), kwargs, node)
+            return self.regex_apply(rx, name.split(".")[1], args[1], node)
         if name == "min" or name == "max":
             if all(isinstance(a, Num) for a in args):
                 rfs = [self.st.norm(a.rf) for a in args]
@@ -1563,16 +1747,9 @@ class ModelsOps:
         if name.startswith("date."):
             m = name.split(".")[1]
             if m == "fromisoformat":
-                c = I.choose(2, "fromisoformat", ["ValueError", "ok"])
-                if c == 0:
-                    I.raise_("ValueError", node)
-                o = OpaqueV("date")
-                o.kinds = {"date"}
-                return o
+                return self.date_from_text(args[0] if args else None, node)
             if m == "today":
-                o = OpaqueV("date")
-                o.kinds = {"date"}
-                return o
+                return DateV("today", *(Num(RF.atom(("k", f"today.{f}")), "int") for f in ("year", "month", "day")))
         if name == "getattr" and len(args) >= 2 and isinstance(args[1], StrV) and args[1].const is not None:
             try:
                 return self.get_attr(args[0], args[1].const, node)
@@ -1994,6 +2171,9 @@ class ModelsOps:
                 raise AbsRaise(ex)
             return v
         if isinstance(v, StrV):
+            known = getattr(self.st, "symbol_units", {}).get(v.const if v.const is not None else v.tag)
+            if known is not None:
+                return known            # the scenario registered a currency under that code
             c = I.choose(2, f"currency-by-symbol({role})", ["ValueError", "found"])
             if c == 0:
                 ex = ExcV("ValueError", (), node, self.where(node))
@@ -2037,14 +2217,14 @@ class ModelsOps:
             raise AbsRaise(ex)
         umc = st.norm(um_in.rf)
         if not (umc.is_const() and umc.const_value() >= 1 and umc.const_value().denominator == 1):
-            c = I.choose(2, "rate-multiple-valid", ["ValueError", "ok"])
+            c = 0 if umc.is_const() else I.choose(2, "rate-multiple-valid", ["ValueError", "ok"])
             if c == 0:
                 ex = ExcV("ValueError", (), node, self.where(node))
                 ex.tag = "rate-validation"
                 raise AbsRaise(ex)
         tac = st.norm(ta_in.rf)
         if not (tac.is_const() and tac.const_value() >= Fraction(1, 1000000)):
-            c = I.choose(2, "rate-amount-valid", ["ValueError", "ok"])
+            c = 0 if tac.is_const() else I.choose(2, "rate-amount-valid", ["ValueError", "ok"])
             if c == 0:
                 ex = ExcV("ValueError", (), node, self.where(node))
                 ex.tag = "rate-validation"
